@@ -228,6 +228,7 @@ def install(mode, solver="glpk"):
     cfg = cobra.Configuration()
     if mode == "symbolic":
         cobra.util.solver.solvers["symlp"] = symlp
+        cobra.util.solver.solvers["symlp_twin"] = symlp.TWIN
         cfg.solver = "symlp"
         cfg.bounds = (-1000.0, 1000.0)
         cfg.tolerance = 1e-7
